@@ -32,6 +32,17 @@ def run(chk):
     n = 6000 if thorough else len(hs)
     res = vplib.vh("nr", ["replay", "--in", cp, "--tier", T, "--seed", str(chk.seed), "--n", str(n)], timeout=3300)
     chk.add_replay(res, "history_replay")
+    # composition (Gabi.tla): whole life cycles of two holders' credentials - issue, revoke, update, show, sign, combine
+    gcfg = "Gabi.mc.%s.cfg" % T
+    gg = vplib.tlc_mc("GabiGen", gcfg, workers=1, timeout=1200)
+    lives = sorted(set(gg.tagged_raw_json("G")))
+    chk.add_tlc(gg, "GabiGen", gcfg, "WitnessSound, RevokedNeverFresh, UpdatedIsFresh; %d life cycles" % len(lives))
+    if len(lives) < 1000:
+        raise vplib.Machinery("life-cycle generator produced only %d histories" % len(lives))
+    lp = os.path.join(vplib.sub("c11"), "lives.ndjson")
+    open(lp, "w").write("\n".join(lives) + "\n")
+    res = vplib.vh("nr", ["lifecycle", "--in", lp, "--tier", T, "--seed", str(chk.seed), "--n", str(4000 if thorough else 700)], timeout=3300)
+    chk.add_replay(res, "life_cycles")
     res = vplib.vh("nr", ["d10", "--tier", T, "--seed", str(chk.seed)], timeout=600)
     chk.add_replay(res, "known_finding_D10")
     chk.exhaustive = not thorough
